@@ -3,11 +3,12 @@
 import json, os, shutil, sys
 AREAS = {"store": ["C09", "C10", "C11"], "trackers": ["C01", "C02", "C03", "C04", "C05", "C06", "C20"], "visual": ["C12", "C13", "C15", "C17"], "numeric": ["C07", "C08", "C14", "C16", "C19"], "python": ["C18"]}
 area = sys.argv[1]
+offset = int(sys.argv[2]) if len(sys.argv) > 2 else 0
 src = f"/tmp/wt/B-{area}/out"
 for i in range(1, 9):
     if not os.path.exists(f"{src}/benign{i}.diff"):
         continue
-    dst = f"/verif/benign/{area}-{i}"
+    dst = f"/verif/benign/{area}-{i + offset}"
     os.makedirs(dst, exist_ok=True)
     shutil.copyfile(f"{src}/benign{i}.diff", f"{dst}/patch.diff")
     m = json.load(open(f"{src}/benign{i}.json"))
